@@ -50,3 +50,19 @@ Print Assumptions C20_default.
 Theorem C20_session_handler : forall sup offer, Session.discover sup offer = discover_spec sup offer.
 Proof. exact session_discover_spec. Qed.
 Print Assumptions C20_session_handler.
+
+(* several Discover Versions items in ONE request: read after the last item has been handled, every reply still holds
+   exactly the answer to its own offer, the configuration is untouched, and two non-empty replies never share memory *)
+Theorem C20_batch_replies_independent : forall offers h sup,
+  (s_arr sup < length h)%nat ->
+  let '(h', ss) := discover_batch h sup offers in
+  map (elems h') ss = map (discover_spec (elems h sup)) offers /\
+  (forall a, (a < length h)%nat -> arr h' a = arr h a) /\
+  (forall i j si sj, nth_error ss i = Some si -> nth_error ss j = Some sj -> i <> j ->
+     s_cap si = 0%nat \/ s_cap sj = 0%nat \/ s_arr si <> s_arr sj).
+Proof.
+  intros offers h sup Hs.
+  pose proof (discover_batch_correct offers h sup Hs) as C. pose proof (discover_batch_disjoint offers h sup Hs) as D.
+  destruct (discover_batch h sup offers) as [h' ss]. destruct C as (E & _ & A & _). auto.
+Qed.
+Print Assumptions C20_batch_replies_independent.
